@@ -435,24 +435,35 @@ def canary(driver, files, work):
 # --------------------------------------------------------------------------------------------------
 # thorough: sanitizer build (supporting evidence only)
 # --------------------------------------------------------------------------------------------------
+ASAN_FLAGS = ("-O1 -g1 -fsanitize=address,undefined -fno-sanitize-recover=all -fsanitize-recover=vptr "
+              "-DGATERY_VERIF -Wno-error")
+# -g1: line tables are enough for the reports and keep the build small.
+# vptr is kept recoverable: NodeIO::~NodeIO -> resizeInputs -> disconnectInput evaluates static_cast<BaseNode*>(this)
+# after ~BaseNode has run (NodeIO.cpp:139), which the vptr check reports on EVERY destruction of a connected node.
+# That is undefined behaviour by the letter but not an out-of-bounds / use-after-free access (the pointer is only
+# compared); it is counted and reported in the evidence, all other sanitizer reports are fatal.
+
+
 def build_asan():
     B = V.BUILD / "asan"
-    flags = "-O1 -g1 -fsanitize=address,undefined -fno-sanitize-recover=all -DGATERY_VERIF -Wno-error"   # -g1: line tables are enough for the reports, keeps the build small
     with V.Lock("asan"):
         B.mkdir(parents=True, exist_ok=True)
-        if not (B / "build.ninja").exists():
+        stamp = B / "flags.stamp"
+        if not (B / "build.ninja").exists() or not stamp.exists() or stamp.read_text() != ASAN_FLAGS + str(V.REPO):
             rc, out = V.run(["cmake", "-G", "Ninja", "-S", str(V.REPO), "-B", str(B), "-DCMAKE_BUILD_TYPE=Release",
-                             f"-DCMAKE_CXX_FLAGS={flags}"], timeout=1200)
+                             f"-DCMAKE_CXX_FLAGS={ASAN_FLAGS}"], timeout=1200)
             if rc != 0:
                 return None, "cmake failed: " + out[-1500:]
+            stamp.write_text(ASAN_FLAGS + str(V.REPO))
         rc, out = V.run(["cmake", "--build", str(B), "--target", "gatery_core", "gatery_scl", f"-j{V.NCPU}"], timeout=3000)
         if rc != 0:
             return None, "asan library build failed: " + out[-1500:]
         exe = V.BUILD / "harness" / "C09_wf_asan"
         src = V.VERIF / "harness" / "C09_wf.cpp"
         libs = [B / "libgatery_scl.a", B / "libgatery_core.a"]
-        if not exe.exists() or any(x.stat().st_mtime > exe.stat().st_mtime for x in [src] + libs):
-            cxx = [f for f in V.CXXFLAGS if not f.startswith(f"-I{V.GATERY_B}")] + [f"-I{B}/gen", "-g1", "-fsanitize=address,undefined", "-fno-sanitize-recover=all"]
+        if not exe.exists() or any(x.stat().st_mtime > exe.stat().st_mtime for x in [src, V.VERIF / "harness" / "netdump.h"] + libs):
+            cxx = [f for f in V.CXXFLAGS if not f.startswith(f"-I{V.GATERY_B}")] + [f"-I{B}/gen", "-g1", "-fsanitize=address,undefined",
+                   "-fno-sanitize-recover=all", "-fsanitize-recover=vptr"]
             ld = ["-Wl,--start-group", str(libs[0]), str(libs[1]), "-Wl,--end-group"] + V.LDLIBS[4:]
             rc, out = V.run(["g++"] + cxx + [str(src), "-o", str(exe)] + ld, timeout=3000)
             if rc != 0:
@@ -460,35 +471,62 @@ def build_asan():
     return str(exe), None
 
 
+def san_classify(out):
+    """-> (fatal report text or None, {location: count} of recoverable vptr notes)"""
+    notes = {}
+    fatal = None
+    for m in re.finditer(r"^(\S+:\d+:\d+): runtime error: (.*)$", out, re.M):
+        if m.group(2).startswith("downcast of address"):
+            notes[m.group(1)] = notes.get(m.group(1), 0) + 1
+        elif fatal is None:
+            fatal = out[max(0, m.start() - 200): m.start() + 2500]
+    m = re.search(r"ERROR: AddressSanitizer", out)
+    if m and fatal is None:
+        fatal = out[max(0, m.start() - 200): m.start() + 3000]
+    return fatal, notes
+
+
 def run_asan(exe, work, seed, designs, nseq, nops):
     if work.exists():
         shutil.rmtree(work)
     work.mkdir(parents=True)
-    env = {"VERIF_SEED": str(seed), "ASAN_OPTIONS": "detect_leaks=0:abort_on_error=0:halt_on_error=1", "UBSAN_OPTIONS": "print_stacktrace=1"}
-    findings, runs = [], 0
+    env = {"VERIF_SEED": str(seed), "ASAN_OPTIONS": "detect_leaks=0:abort_on_error=0:halt_on_error=1", "UBSAN_OPTIONS": "print_stacktrace=0"}
+    findings, runs, notes = [], 0, {}
+
+    def merge(n):
+        for k, v in n.items():
+            notes[k] = notes.get(k, 0) + v
     rc, out = V.run([exe, "nodeio", str(nseq), str(nops), str(work / "nodeio.txt")], timeout=3000, env=env)
     runs += 1
-    if rc != 0 or "Sanitizer" in out or "runtime error" in out:
-        findings.append(dict(where=f"nodeio {nseq} {nops} seed {seed}", rc=rc, report=out[-3000:]))
+    fatal, n = san_classify(out)
+    merge(n)
+    if rc != 0 or fatal:
+        ops, pending = last_try(work / "nodeio.txt")
+        findings.append(dict(where=f"nodeio {nseq} {nops} seed {seed}", rc=rc, report=fatal or out[-3000:], ops=ops + ([pending] if pending else [])))
     nproc = min(V.NCPU, 8)
     shards = [designs[i::nproc] for i in range(nproc)]
 
     def one(i):
         if not shards[i]:
-            return None
+            return None, {}
         pf = work / f"designs{i}.txt"
         G.write_programs(pf, [d[0] for d in shards[i]])
         rc, out = V.run([exe, "design", str(pf), str(work), "def,min", "1"], timeout=3000, env=env)
-        if rc != 0 or "Sanitizer" in out or "runtime error" in out:
-            return dict(where=f"designs shard {i}: " + " ".join(d[0][0].split()[1] for d in shards[i]), rc=rc, report=out[-3000:],
-                        programs=[d[0] for d in shards[i]])
-        return None
+        fatal, n = san_classify(out)
+        if rc != 0 or fatal:
+            ids = [d[0][0].split()[1] for d in shards[i]]
+            unf = unfinished(work, ids)
+            pd = {d[0][0].split()[1]: d[0] for d in shards[i]}
+            return dict(where=f"designs shard {i}", rc=rc, report=fatal or out[-3000:], unfinished=unf[:3],
+                        program=pd.get(unf[0][0]) if unf else None), n
+        return None, n
     with concurrent.futures.ThreadPoolExecutor(max_workers=nproc) as ex:
-        for r in ex.map(one, range(nproc)):
+        for r, n in ex.map(one, range(nproc)):
             runs += 1
+            merge(n)
             if r:
                 findings.append(r)
-    return findings, runs
+    return findings, runs, notes
 
 
 # --------------------------------------------------------------------------------------------------
@@ -502,7 +540,9 @@ def load_corpus():
 
 
 def main():
+    global WORK
     rep = V.Report(CID, "proof")
+    WORK = WORK / ("replay" if "--replay" in sys.argv else rep.tier)     # quick / thorough / replay runs do not share files
     V.build_gatery()
     harness = V.build_harness("C09_wf")
     driver = V.build_model(CID)
@@ -535,7 +575,7 @@ def main():
     if replay and replay.get("ops"):
         p = WORK / "replay.ops"
         WORK.mkdir(parents=True, exist_ok=True)
-        p.write_text("seq replay\n" + "\n".join(replay["ops"]) + "\nendseq\n")
+        p.write_text("seq replay\n" + "\n".join(o if o.startswith("op ") else "op " + o for o in replay["ops"]) + "\nendseq\n")
         seqfiles = [str(p)]
     for f in seqfiles:
         t1_runs.append((f"corpus:{os.path.basename(f)}", ["ops", f]))
@@ -602,11 +642,14 @@ def main():
         if exe is None:
             asan = dict(built=False, error=err)
         else:
-            findings, runs = run_asan(exe, WORK / "asan", seed, designs, 600, 150)
-            asan = dict(built=True, runs=runs, findings=len(findings))
+            findings, runs, notes = run_asan(exe, WORK / "asan", seed, designs, 600, 150)
+            asan = dict(built=True, flags=ASAN_FLAGS, runs=runs, fatal_reports=len(findings),
+                        recoverable_vptr_notes_by_location=notes,
+                        note="supporting evidence only: absence of reports on the sampled corpora, not a proof of memory safety")
             for fnd in findings:
                 found.append(dict(property=CID, what="sanitizer report (ASan/UBSan build of gatery + harness; supporting evidence tier)",
-                                  where=fnd["where"], report=fnd["report"], programs=fnd.get("programs"),
+                                  where=fnd["where"], report=fnd["report"], ops=fnd.get("ops"), program=fnd.get("program"),
+                                  unfinished=fnd.get("unfinished"),
                                   how_to_rerun="build/harness/C09_wf_asan nodeio|design ... (see checks/C09.py run_asan)"))
 
     # ---------------- search mode ----------------
